@@ -20,7 +20,7 @@ LEVEL = 'exploration'
 RULE = (
     'atoms Li,S,Li,S,P and Si,S,Si,S,P (floating symbol contains a reference symbol); per-atom step pattern from a table of K patterns (steps in {-0.2,0,0.15} on varying axes), '
     'all K^5 assignments; rigid drift signals from a table (steps in {-0.2,0,0.15} on every axis); selection forms '
-    '{none, fixed "S", ["S"], ["S","P"], floating "Li", ["Li"], floating ["Li","P"]}; species as Species/Element; '
+    '{none, fixed "S", ["S"], ["S","P"], floating "Li", ["Li"], floating ["Li","P"]}; species as Species / Element / Species with oxidation state; '
     'LATTICES; frames 4 (quick) / 4-5 (thorough); distinct = distinct corrected displacement arrays'
 )
 LEVEL_TEXT = (
@@ -71,7 +71,7 @@ def shards(tier, seed):
     if tier == 'quick':
         lats = [l for l in lats if l[0] in ('cubic6', 'ortho567-axes-permuted', 'tric-pmg-default', 'hex-a5-c7')]
     for lname, M in lats:
-        for cls in ('Species', 'Element'):
+        for cls in ('Species', 'Element', 'SpeciesOx'):
             for p0 in range(K):
                 for T in ([4] if tier == 'quick' else [4, 5]):
                     out.append({'lat': lname, 'M': M.tolist(), 'cls': cls, 'K': K, 'p0': p0, 'T': T, 'nd': 3 if tier == 'quick' else 4, 'layout': 'Li' if (p0 + T) % 2 == 0 or tier == 'thorough' else 'Si'})
@@ -106,11 +106,14 @@ def evaluate(assign, drift_idx, T, M, cls, layout='Li'):
     x, xd = build(assign, drift_idx, T, M, cls)
     wrap = lambda c: np.mod(c, 1)  # noqa: E731
     keys = []
-    for fname, kw, ref in FORMS:
+    for fi, (fname, kw, ref) in enumerate(FORMS):
         t0 = concretise.make_trajectory(wrap(x), SYMS, M, time_step=2e-15, temperature=321.0, species_cls=cls)
         t1 = concretise.make_trajectory(wrap(xd), SYMS, M, time_step=2e-15, temperature=321.0, species_cls=cls)
         try:
+            if fi % 2:
+                t0.displacements  # the source may be in either internal representation when corrected
             c0 = t0.apply_drift_correction(**kw)
+            c00_early = c0.apply_drift_correction(**kw)  # corrected again while still in displacement mode
             d0 = np.array(c0.displacements)
         except Exception as e:  # noqa: BLE001
             viols.append((f'correction-raise-{type(e).__name__}-{fname.split("-")[0]}-{cls}', f'{fname}: {e}'))
@@ -138,6 +141,8 @@ def evaluate(assign, drift_idx, T, M, cls, layout='Li'):
             c00 = c0.apply_drift_correction(**kw)
             if not circ(np.array(c00.positions), p0) or not np.allclose(np.array(c00.displacements), d0, atol=1e-12):
                 viols.append(('correction-not-idempotent', f'{fname}'))
+            if not circ(np.array(c00_early.positions), p0) or not np.allclose(np.array(c00_early.displacements), d0, atol=1e-12):
+                viols.append(('correction-not-idempotent-when-applied-to-displacement-mode-object', f'{fname}: first frame {np.array(c00_early.positions)[0].tolist()} vs {p0[0].tolist()}'))
             c1 = t1.apply_drift_correction(**kw)
             if not np.allclose(np.array(c1.displacements), d0, atol=1e-12):
                 viols.append(('injected-rigid-drift-not-removed', f'{fname}: max dev {np.max(np.abs(np.array(c1.displacements) - d0))}'))
